@@ -161,6 +161,9 @@ func (d *durationGroupDurationImpl) GroupDurations() map[int]time.Duration {
 
 // AddGroup implements DurationGroupsExpression.
 func (d *durationGroupDurationImpl) AddGroup(stops nextroute.ModelStops, duration time.Duration) error {
+	if len(stops) == 0 {
+		return nmerror.NewInputDataError(fmt.Errorf("cannot add an empty group"))
+	}
 	groupCount := atomic.AddInt64(&d.groupCount, 1) - 1
 	for _, stop := range stops {
 		if d.toGroupIndex[stop.Index()] >= 0 {
